@@ -11,3 +11,7 @@ macro_rules! vmod {
 
 vmod!(vlib);
 vmod!(c10);
+#[cfg(not(feature = "shuttle"))]
+vmod!(wl);
+#[cfg(not(feature = "shuttle"))]
+vmod!(c01);
